@@ -50,6 +50,21 @@ class _Idx:
         return "_Idx(%d)" % self.i
 
 
+def _failing_substitution(src, max_depth):
+    """a substitution roller whose expansion operator fails now and then, part-way into a nested expansion"""
+    from dyce.r import SubstitutionRoller
+
+    n = [0]
+
+    def boom(o):
+        n[0] += 1
+        if n[0] % 3 == 0:
+            raise ValueError("expansion failed")
+        return src.roll()
+
+    return SubstitutionRoller(boom, src, max_depth=max_depth)
+
+
 class World:
     def __init__(self, case):
         from dyce import H, P
@@ -70,6 +85,8 @@ class World:
                 self.add(R.from_value(self.hists()[d[1] % len(self.hists())], annotation=d[2]))
                 if d[1] % 2 and self.hists():
                     self.add(R.from_value(P(self.hists()[d[1] % len(self.hists())])))  # a roller over a one-die pool
+                if d[1] % 3 == 0:
+                    self.add(_failing_substitution(self.rollers()[0], 3 + d[1] % 3))
 
     def hists(self):
         return [o for k, o, _ in self.objs if k == "H"]
@@ -258,15 +275,7 @@ def run_op(w, op):
             return R.from_value(w.P(h))  # a roller over a one-die pool
         if which == 6 and a[2] % 8 == 4:
             # a substitution roller whose expansion operator fails part-way into a nested expansion
-            from dyce.r import SubstitutionRoller
-
-            def boom(o, _n=[0]):
-                _n[0] += 1
-                if _n[0] % 3 == 0:
-                    raise ValueError("expansion failed")
-                return r.roll()
-
-            return SubstitutionRoller(boom, r, max_depth=3 + a[1] % 3)
+            return _failing_substitution(r, 3 + a[1] % 3)
         if which == 6 and a[2] % 2:
             # selectors that are index-like but not plain ints
             return r.select(True, slice(None)) if a[2] % 4 == 1 else R.select_from_sources((_Idx(0), False), r)
